@@ -227,6 +227,67 @@ def run(R):
                 names = field_names(fb.origin(t['args'][4]))
                 R.check(names[-1:] == ['max_decoding_message_size'], 'C06.R4', 'cli:decode-limit', site(fb, bb), 'limit = %s' % show(fb.origin(t['args'][4])))
         R.floor('C06.R4', 'client new_response sites', k, 1)
+        # every decoder the client builds for a response — also for a response whose headers already carry grpc-status —
+        # gets the configured limit: follow each Streaming constructor called here down to Streaming::new
+        def limit_source(cb_, depth=0):
+            """index of the argument of constructor body cb_ that reaches Streaming::new's max_message_size, or None"""
+            if cb_.path.endswith('Streaming::<T>::new'):
+                return 5
+            for bb_, t_ in cb_.calls(pat='codec::decode::Streaming'):
+                if not (t_.get('name') or '').startswith('new') or depth > 4:
+                    continue
+                callee = [x for x in tonic.bodies if x.kind == 'fn' and x.path.endswith('Streaming::<T>::' + t_['name'])]
+                if not callee:
+                    continue
+                idx = limit_source(callee[0], depth + 1)
+                if idx is None or idx - 1 >= len(t_['args']):
+                    return None
+                a_ = cb_.origin(t_['args'][idx - 1])
+                return a_[1] if a_[0] == 'arg' else None
+            return None
+        kk = 0
+        for fb in fam:
+            for bb, t in fb.calls(pat='codec::decode::Streaming'):
+                if not (t.get('name') or '').startswith('new'):
+                    continue
+                kk += 1
+                callee = [x for x in tonic.bodies if x.kind == 'fn' and x.path.endswith('Streaming::<T>::' + t['name'])]
+                idx = limit_source(callee[0]) if callee else None
+                lim = fb.origin(t['args'][idx - 1]) if idx and idx - 1 < len(t['args']) else None
+                ok = lim is not None and field_names(lim)[-1:] == ['max_decoding_message_size']
+                R.check(ok, 'C06.R4', 'cli:every-decoder-gets-limit:%s' % t['name'], site(fb, bb),
+                        'Streaming::%s: the value reaching Streaming::new(max_message_size) is %s' % (t['name'], show(lim) if lim is not None else 'a constant inside the constructor (the 4 MiB default replaces the configured limit)'))
+        R.floor('C06.R4', 'client decoder constructor sites', kk, 2)
+        # Clone of the client keeps every configuration field (hand-written impl)
+        cc = tonic.body(re.compile(r'<client::grpc::Grpc<T> as std::clone::Clone>::clone$'))
+        R.saw(cc)
+        nf = 0
+        for ag in mirlib.aggregates(cc, 'client::grpc::GrpcConfig'):
+            nf += copy_field_agreement(R, 'C06.R4', 'cli:clone', cc, ag)
+        R.floor('C06.R4', 'client Clone fields', nf, 5)
+        # generated servers: Clone and the per-call Grpc configuration use the same-named fields
+        import gen
+        ng = 0
+        for key, sv in sorted(gen.collect(R).items()):
+            srv = sv.get('server')
+            if not srv:
+                continue
+            crate = sv['crate']
+            modpath = srv['body'].path[1:srv['body'].path.index(' as ')]
+            cb = [x for x in crate.bodies if x.kind == 'fn' and x.path == '<' + modpath + ' as std::clone::Clone>::clone']
+            for cbd in cb:
+                for ag in mirlib.aggregates(cbd):
+                    if (ag[3].get('adt') or '').endswith('Server') and ag[2]['l'] == 0 or (ag[3].get('fields') and 'max_decoding_message_size' in ag[3]['fields']):
+                        ng += copy_field_agreement(R, 'C06.R4', 'gen-clone:%s' % sv['tag'], cbd, ag)
+            for path, arm in sorted(srv['arms'].items()):
+                eb_ = arm.get('entry_body')
+                if not eb_:
+                    continue
+                for bb_, t_ in eb_.calls(name='apply_max_message_size_config'):
+                    a1, a2 = show(eb_.origin(t_['args'][1])), show(eb_.origin(t_['args'][2]))
+                    ng += 1
+                    R.check('max_decoding_message_size' in a1 and 'max_encoding_message_size' in a2, 'C06.R4', 'gen-limits:%s:%s' % (sv['tag'], path), site(eb_, bb_), 'apply_max_message_size_config(%s, %s)' % (a1[-40:], a2[-40:]))
+        R.floor('C06.R4', 'generated-server limit plumbing instances', ng, 100)
         # setters write the same-named field
         for crate_path, fields in (('server::grpc::Grpc::<T>', ('max_decoding_message_size', 'max_encoding_message_size')),
                                    ('client::grpc::Grpc::<T>', ('max_decoding_message_size', 'max_encoding_message_size'))):
